@@ -28,7 +28,18 @@ def cell_for(rng, system, setting, variant):
             al = float(rng.uniform(50, 115))
         a = float(rng.uniform(4, 9))
         return [a, a, a, al, al, al]
-    c = gen.conforming_cell(rng, system, setting, "orth" if variant == "orth" else None)
+    c = gen.conforming_cell(rng, system, setting, "orth" if variant in ("orth", "pseudo") else None)
+    if variant == "pseudo":
+        # pseudo-symmetric metric: free axes equal to within 1e-6..1e-5, so that inequivalent reflections have
+        # sintl values closer than 1e-6 (ordering, column 4 and boundary semantics are exercised on near-ties)
+        a = c[0]
+        if system in ("triclinic", "monoclinic", "orthorhombic"):
+            c[1] = a * (1 + float(rng.choice([-1, 1])) * 10 ** rng.uniform(-6, -5))
+            c[2] = a * (1 + float(rng.choice([-1, 1])) * 10 ** rng.uniform(-6, -5))
+        elif system == "tetragonal":
+            c[2] = a * (1 + float(rng.choice([-1, 1])) * 10 ** rng.uniform(-6, -5))
+        elif system in ("trigonal", "hexagonal") and setting != "rhombohedral":
+            c[2] = a * math.sqrt(8.0 / 3.0) * (1 + float(rng.choice([-1, 1])) * 10 ** rng.uniform(-6, -5))
     return c
 
 
